@@ -100,6 +100,67 @@ fn c17_commit_after_tail(tail: &[u8]) -> i32 {
     else { println!("VIOLATION reproduced: node 20 with k=42 was committed (commit returned Ok) after a tolerated {}-byte tail; after reopen node={:?} k={:?}", tail.len(), iid, v); 1 }
 }
 
+/// Witness class for C17: every truncation point of a 3-transaction log, then reopen, commit, reopen.
+fn c17_truncate_every_byte() -> i32 {
+    let d = tmpdir("trunc");
+    let ndb0 = d.join("base.ndb");
+    let wal0 = d.join("base.wal");
+    {
+        let e = GraphEngine::open(&ndb0, &wal0).unwrap();
+        for (i, id) in [10u64, 11, 12].iter().enumerate() {
+            let mut tx = e.begin_write();
+            let n = tx.create_node(*id, 0).unwrap();
+            tx.set_node_property(n, "k".to_string(), nervusdb_api::PropertyValue::Int(i as i64));
+            tx.commit().unwrap();
+        }
+    }
+    let full = std::fs::read(&wal0).unwrap();
+    let mut bad = 0;
+    let mut tried = 0;
+    let mut cut = 0usize;
+    while cut <= full.len() {
+        let ndb = d.join("t.ndb");
+        let wal = d.join("t.wal");
+        std::fs::copy(&ndb0, &ndb).unwrap();
+        std::fs::write(&wal, &full[..cut]).unwrap();
+        tried += 1;
+        let r = std::panic::catch_unwind(|| -> Result<(Vec<Option<nervusdb_api::PropertyValue>>, bool), String> {
+            use nervusdb_api::{GraphSnapshot, GraphStore};
+            let e = GraphEngine::open(&ndb, &wal).map_err(|e| e.to_string())?;
+            let seen: Vec<_> = (0u32..3).map(|i| e.snapshot().node_property(i, "k")).collect();
+            // commit after the tolerated tail, reopen, must still be there
+            {
+                let mut tx = e.begin_write();
+                let n = tx.create_node(99, 0).map_err(|e| e.to_string())?;
+                tx.set_node_property(n, "z".to_string(), nervusdb_api::PropertyValue::Int(7));
+                tx.commit().map_err(|e| e.to_string())?;
+            }
+            drop(e);
+            let e = GraphEngine::open(&ndb, &wal).map_err(|e| e.to_string())?;
+            let iid = e.lookup_internal_id(99).ok_or("node 99 missing")?;
+            let ok = e.snapshot().node_property(iid, "z") == Some(nervusdb_api::PropertyValue::Int(7));
+            Ok((seen, ok))
+        });
+        match r {
+            Ok(Ok((seen, later_ok))) => {
+                // committed prefix: property k of node i present implies present for all j < i
+                let present: Vec<bool> = seen.iter().map(|x| x.is_some()).collect();
+                let prefix_ok = !(present[1] && !present[0]) && !(present[2] && !present[1]);
+                if !prefix_ok || !later_ok {
+                    println!("VIOLATION reproduced: log truncated to {cut} bytes: recovered={:?} later_commit_durable={later_ok}", present);
+                    bad += 1;
+                }
+            }
+            Ok(Err(e)) => { println!("VIOLATION reproduced: log truncated to {cut} bytes: {e}"); bad += 1; }
+            Err(_) => { println!("VIOLATION reproduced: log truncated to {cut} bytes: panic"); bad += 1; }
+        }
+        if bad >= 3 { break; }
+        cut += 1;
+    }
+    let _ = std::fs::remove_dir_all(&d);
+    if bad == 0 { println!("conforms: {tried} truncation points of a {}-byte log", full.len()); 0 } else { 1 }
+}
+
 fn main() {
     let a: Vec<String> = std::env::args().collect();
     let code = match a.get(1).map(|s| s.as_str()) {
@@ -107,6 +168,7 @@ fn main() {
         Some("c17_tail_big_len") => c17_tail("big-len", &[0xFF, 0xFF, 0xFF, 0xFF]),
         Some("c17_tail_zero_fill") => c17_tail("zero-fill", &[0u8; 64]),
         Some("c17_tail_garbage") => c17_tail("garbage", &[0x01, 0x02]),
+        Some("c17_truncate_every_byte") => c17_truncate_every_byte(),
         Some("c17_commit_after_tail") => c17_commit_after_tail(&[0x01, 0x02]),
         _ => { eprintln!("unknown scenario"); 2 }
     };
